@@ -12,6 +12,7 @@ import (
 	"runtime"
 	"sort"
 	"strings"
+	"time"
 
 	"github.com/goark/go-cvss/cvsserr"
 	m2 "github.com/goark/go-cvss/v2/metric"
@@ -281,6 +282,22 @@ func decodeFull(fam string, lvl byte, raw string, deep bool) (ev *decEvent) {
 		}
 	}
 	return
+}
+
+// decodeWatched: decodeFull with the C12 watchdog: a call on an input of at most 1 KiB that has not
+// returned after 10 s counts as "did not return" (recorded like a panic; the stuck goroutine is abandoned)
+func decodeWatched(fam string, lvl byte, raw string, deep bool) *decEvent {
+	if len(raw) > 1024 {
+		return decodeFull(fam, lvl, raw, deep)
+	}
+	ch := make(chan *decEvent, 1)
+	go func() { ch <- decodeFull(fam, lvl, raw, deep) }()
+	select {
+	case ev := <-ch:
+		return ev
+	case <-time.After(10 * time.Second):
+		return &decEvent{K: "dec", Fam: fam, Lvl: string(lvl), S: asciiSafe(raw), Panic: true, Sent: []string{"Decode did not return within 10 s"}}
+	}
 }
 
 func v3FieldsOf(o v3obj, lvl byte) map[string]string {
@@ -722,7 +739,12 @@ func cmdLang(args []string) {
 	accepted := make([]int64, workers)
 	parallelFor(len(inputs), workers, func(w, i int) {
 		for _, lvl := range lvls {
-			ev := decodeFull(*fam, lvl, inputs[i], *deepAll)
+			var ev *decEvent
+			if flagPid == "C12" {
+				ev = decodeWatched(*fam, lvl, inputs[i], *deepAll)
+			} else {
+				ev = decodeFull(*fam, lvl, inputs[i], *deepAll)
+			}
 			if ev.Ok {
 				accepted[w]++
 			}
